@@ -104,6 +104,16 @@ fn gen_plan(seed: u64) -> AliasPlan {
         let b2 = *r.pick(BASES);
         pool.push(splits(b2, nl, &mut r));
     }
+    if r.chance(12) {
+        // long values of equal length that share a long head and differ only at the very end
+        let len = *r.pick(&[31usize, 32, 33, 40, 64, 65, 100, 300]);
+        let at = r.below(nl as u64) as usize;
+        for k in 0..3 {
+            let mut t: Vec<String> = (0..nl).map(|_| "x".to_string()).collect();
+            t[at] = format!("{}{}", "h".repeat(len), k);
+            pool.push(t);
+        }
+    }
     let mut requests = vec![];
     for _ in 0..nreq {
         let t = r.pick(&pool).clone();
